@@ -16,7 +16,7 @@ META = {
              "d 2-4, cycles 0-8, full and simplified; multi-round experiment circuits); distinct by structural hash; non-trivial = nesting depth >= 2"),
     "assumptions": ["for generated programs only the multiset clause is asserted (the statement promises order/schedule only for library circuits)"],
     "floors": {
-        "quick": {"flatten_calls": 2500, "second_flatten_checks": 2500, "library_flatten_checks": 50, "library_unobserved_flatten_checks": 50, "simplified_zero_cycle_inputs": 8, "leaves_compared": 30000, "deep_flatten_depth": 1300},
+        "quick": {"flatten_calls": 2500, "second_flatten_checks": 2500, "library_flatten_checks": 50, "library_unobserved_flatten_checks": 50, "simplified_zero_cycle_inputs": 8, "duration_read_before_first_listing": 15, "leaves_compared": 30000, "deep_flatten_depth": 1300},
         "thorough": {"flatten_calls": 30000, "second_flatten_checks": 30000, "library_flatten_checks": 150},
     },
 }
@@ -113,7 +113,13 @@ def check_library(inp: Dict[str, Any], acc: Acc):
         else:
             circuit = libgen.construct(inp)
         circuit = circuit.apply_modifiers()
+        if inp.get("duration_read_first"):
+            # a timing read BEFORE the operations are listed for the first time (fills the start-time memo early)
+            acc.count("duration_read_before_first_listing")
+            float(circuit.duration)
         a = lib_snapshot(circuit)
+        if a["raw"] != a["shadow"]:
+            acc.finding("stale-memo/before-flatten", "times reported for a modifier-applied library circuit differ from the memo-free evaluation", case, None)
         flat = circuit.flatten()
         b = lib_snapshot(flat)
         acc.count("library_flatten_checks")
@@ -215,6 +221,7 @@ def run_shard(shard: Dict[str, Any]) -> Acc:
                 inp["rounds"] = rng.sample(range(0, 6), rng.randint(1, 3))
                 inp["ancilla_state"] = None
             inp["glob"] = libgen.gen_global_settings(rng, default=rng.random() < 0.5)
+            inp["duration_read_first"] = rng.random() < 0.5
             acc.hist("class", "library/" + ("multi_round" if inp.get("multi_round") else inp["constructor"]))
             acc.case(bp.phash(inp), True, sample=inp if i < 3 else None)
             common.guarded(acc, check_library, inp, acc, case={"library": inp})
